@@ -108,6 +108,10 @@ pub fn eval_case(w: &mut Worker, c: &Case) -> Result<Outcome, String> {
         return Ok(out);
     }
     let steps = resp["steps"].as_array().cloned().unwrap_or_default();
+    if resp.get("domainExit").is_some() || steps.iter().any(|s| s.get("domainExit").is_some()) {
+        out.labels.push("domain-exit:non-unique-keys".into());
+        out.excluded += 1;
+    }
     out.units = steps.iter().map(|s| s["nodes"].as_u64().unwrap_or(0)).sum();
     let nonempty_steps = step_labels.iter().filter(|l| !l.iter().any(|x| x == "diff:empty")).count();
     if nonempty_steps > 0 && !steps.is_empty() {
